@@ -516,9 +516,35 @@ def spec_expect(recipe):
     return exp
 
 
-def norm_path(p, root):
+def place_lint(rng, root):
+    """Where a read-only command is run from and how --root is spelled: -> (cwd, global args without --no-multiprocessing)."""
+    root = str(root)
+    r = rng.random()
+    if r < 0.5:
+        return root, ["--root", root]
+    if r < 0.6:
+        return root, []
+    if r < 0.7:
+        return root, ["--root", "."]
+    if r < 0.8:
+        parent = os.path.dirname(root)
+        return parent, ["--root", os.path.basename(root)]
+    if r < 0.9:
+        return "/", ["--root", root + "/"]
+    subs = [d for d in sorted(os.listdir(root)) if os.path.isdir(os.path.join(root, d)) and not d.startswith(".") and d != "LICENSES"]
+    if subs:
+        cwd = os.path.join(root, subs[0])
+        return cwd, ["--root", os.path.relpath(root, cwd)]
+    return root, ["--root", root]
+
+
+def norm_path(p, root, cwd=None):
     p = str(p)
     root = str(root)
+    if cwd is not None and not os.path.isabs(p):
+        # file paths are printed relative to cwd (as --root was spelled), licence paths relative to the root
+        a = os.path.join(cwd, p)
+        p = a if os.path.lexists(a) else os.path.join(root, p)
     if os.path.isabs(p):
         try:
             return os.path.relpath(os.path.realpath(p), os.path.realpath(root))
@@ -527,10 +553,10 @@ def norm_path(p, root):
     return os.path.normpath(p)
 
 
-def lint_observed(data, root):
+def lint_observed(data, root, cwd=None):
     """Normalise `reuse lint --json` output to the shape of spec_expect."""
     nc = data["non_compliant"]
-    n = lambda p: norm_path(p, root)  # noqa: E731
+    n = lambda p: norm_path(p, root, cwd)  # noqa: E731
     return {
         "missing_licenses": {k: {n(x) for x in v} for k, v in nc["missing_licenses"].items()},
         "unused_licenses": set(nc["unused_licenses"]),
@@ -541,7 +567,7 @@ def lint_observed(data, root):
         "missing_licensing_info": {n(x) for x in nc["missing_licensing_info"]},
         "read_errors": {n(x) for x in nc["read_errors"]},
         "used_licenses": set(data["summary"]["used_licenses"]),
-        "covered": {n(f["path"]) for f in data["files"]} | {n(x) for x in nc["read_errors"]},
+        "covered": {norm_path(f["path"], root) for f in data["files"]} | {n(x) for x in nc["read_errors"]},
         "compliant": data["summary"]["compliant"],
     }
 
